@@ -16,7 +16,8 @@ LEVEL = "exploration"
 BUDGET = {"quick": {"n": 1000, "wall_s": 400}, "thorough": {"n": 40000, "wall_s": 3300}}
 RULE = ("per case: seeded group configuration (7 hash fns, device kind, pool spec, prefix/suffix sizes, knob "
         "overrides for buffer/prefix/suffix-threshold in ~70%, cache, transform in ~25%) x seeded world of near-"
-        "duplicate families (single-byte flips at stage boundary offsets, hard links, symlinks with -S/-L) x fault "
+        "duplicate families (single-byte flips at stage boundary offsets, hard links, symlinks with -S/-L; in ~15% all equal-length "
+        "files carry one inode number on different st_dev) x fault "
         "mode (none / short reads on every read / seeded open+read delays); non-trivial = the report contains a "
         "group with >= 2 paths; distinct = distinct trace signatures")
 ASSUMPTIONS = [
@@ -58,8 +59,13 @@ def gen_case(seed, i):
     if len(roots) >= 2 and "-L" not in gflags and rng.random() < 0.4:
         gflags.append("--isolate")
     fm = rng.choice(["none", "none", "short", "short", "delay"])
-    return {"i": i, "cfg": cfg, "world": world.to_json(), "roots": roots, "gflags": gflags, "fault": fm,
-            "seam_seed": rng.randint(1, 10**9)}
+    c = {"i": i, "cfg": cfg, "world": world.to_json(), "roots": roots, "gflags": gflags, "fault": fm,
+         "seam_seed": rng.randint(1, 10**9)}
+    # ~15%: every set of equal-length files is presented as files with ONE inode number on DIFFERENT file systems
+    # (st_dev differs; two partitions or subvolumes of one disk) - they are not hard links of each other
+    # (drawn last: the stream of the earlier draws is unchanged)
+    c["ino_twins"] = rng.random() < 0.15
+    return c
 
 
 def gen_cases(tier, seed):
@@ -81,6 +87,8 @@ def shrink(case):
         c = dict(case); c["fault"] = "none"; yield c
     if case["gflags"]:
         c = dict(case); c["gflags"] = []; yield c
+    if case.get("ino_twins"):
+        c = dict(case); c["ino_twins"] = False; yield c
     cfg = case["cfg"]
     if cfg["threads"] != ["1"]:
         c = dict(case); c["cfg"] = dict(cfg, threads=["1"]); yield c
@@ -140,22 +148,43 @@ def check_report(case, rd, res, viol, tag):
     return multi
 
 
+def twin_labels(rd):
+    """real inode -> simulated (ino, dev): all regular files of one length share an inode number, each on its own device"""
+    by_len = {}
+    for dp, _dn, fn in os.walk(rd.wb()):
+        for f in fn:
+            try:
+                st = os.lstat(os.path.join(dp, f))
+            except OSError:
+                continue
+            import stat as _st
+            if _st.S_ISREG(st.st_mode):
+                by_len.setdefault(st.st_size, set()).add(st.st_ino)
+    labels = {}
+    for k, (ln, inos) in enumerate(sorted(by_len.items())):
+        if len(inos) >= 2:
+            for j, ino in enumerate(sorted(inos)):
+                labels[ino] = {"ino": 900000 + k, "dev": 7001 + j}
+    return labels
+
+
 def run_case(case):
     cfg = case["cfg"]
     viol = []
     with core.RunDir("c01") as rd:
         World.from_json(case["world"]).materialise(rd.world)
+        labels = twin_labels(rd) if case.get("ino_twins") else None
         roots = [os.path.join(rd.world, r) for r in case["roots"]]
         args = gen.cfg_args(cfg) + case["gflags"] + ["-f", "json"]
         env = gen.cfg_env(cfg)
         traces = []
-        res = ops.group(rd, roots, args, plan=plan_for(case, rd), env=env, seed=case["seam_seed"])
+        res = ops.group(rd, roots, args, plan=plan_for(case, rd), env=env, seed=case["seam_seed"], labels=labels)
         traces.append(res.trace)
         multi = check_report(case, rd, res, viol, "run1")
         inv = 1
         if cfg.get("cache") and not viol:
             res2 = ops.group(rd, roots, args, plan=plan_for(case, rd), env=env, seed=case["seam_seed"] + 1,
-                             now_ns=T0_NS + 5 * 10**9)
+                             now_ns=T0_NS + 5 * 10**9, labels=labels)
             traces.append(res2.trace)
             check_report(case, rd, res2, viol, "run2-cached")
             inv = 2
@@ -172,6 +201,7 @@ def run_case(case):
                 "transform_runs": int(bool(cfg.get("transform"))),
                 "cache_runs": int(bool(cfg.get("cache"))),
                 "small_knobs": int(cfg["small"]),
+                "same_inode_number_on_other_device": int(bool(labels)),
                 "hash_" + cfg["hash_fn"]: 1,
                 "kind_" + cfg["kind"]: 1,
             },
